@@ -14,29 +14,36 @@
    The third-party decoders are ONE defined function over abstract documents,
    generic_decode: a strict, tag-directed decoder.  That encoding/json,
    yaml.v2, go-toml and cue behave like it on the generated input class is
-   assumed and sampled by the correspondence check, not proved.  Its one
-   parameter `native_dur` says whether the library itself reads a duration
-   string into a time.Duration field (yaml.v2, go-toml: yes; encoding/json,
-   cue: no - which is why dials substitutes the type).
+   assumed and sampled by the correspondence check, not proved.  Its
+   parameter `nd` (native duration) says whether the library itself reads a
+   duration string into a time.Duration field (yaml.v2, go-toml: yes;
+   encoding/json, cue: no - which is why dials substitutes the type); `nt`
+   (native time) whether the format has a datetime token of its own from which
+   - and only from which - a time.Time field is read (go-toml).
 
    Values: the reverse translation (Convert ParsingDuration -> Duration, struct
    conversion ignoring tags) is the identity on tree values.
 
    Err codes: 40 kind mismatch, 41 integer out of range for the field,
    42 duration string into a plain time.Duration (library cannot), 1/2 from the
-   duration grammar, 43 document is not a mapping at struct position. *)
+   duration grammar, 43 document is not a mapping at struct position, 44 not a
+   timestamp (Sources/TimeText.v). *)
 From Coq Require Import String.
 From Coq Require Import List NArith ZArith Bool.
-From Dials Require Import Base.Outcome Base.Runes Reflect.Ty Stack.Overlay Text.ParseText Sources.Flatten.
+From Dials Require Import Base.Outcome Base.Runes Reflect.Ty Stack.Overlay Text.ParseText Sources.Flatten Sources.TimeText.
 Import ListNotations.
 Open Scope list_scope.
 Open Scope N_scope.
 
-(* abstract documents: scalars, lists, string-keyed maps *)
+(* abstract documents: scalars, lists, string-keyed maps.  DTime is a
+   timestamp written the way the format writes timestamps: TOML has a datetime
+   token of its own, the other three syntaxes write a string (so their texts
+   never abstract to a DTime node; a generated DTime is rendered as a string) *)
 Inductive doc :=
 | DBool (b : bool)
 | DInt (z : Z)
 | DStr (s : str)
+| DTime (s : str)
 | DList (l : list doc)
 | DMap (kvs : list (str * doc)).
 
@@ -103,15 +110,26 @@ Fixpoint kv_ins (k : str) (v : val) (l : list (val * val)) : list (val * val) :=
   | x :: r => x :: kv_ins k v r
   end.
 
+(* a time.Time leaf: from the format's datetime token where it has one
+   (nt, go-toml: "Can't convert ...(string) to time.Time"), else from a string *)
+Definition decode_time (nt : bool) (d : doc) : outcome val :=
+  match d with
+  | DTime s => time_value s
+  | DStr s => if nt then Err e_time else time_value s    (* a string is not a timestamp there *)
+  | _ => Err 40
+  end.
+
 (* the decoder, parametrised by how a field's key is found from its name and
    tags; a library uses the key function `field_key keytag` *)
-Fixpoint keyed_decode (nd : bool) (key : str -> list (str * str) -> str) (d : doc) (t : ty) {struct t}
+Fixpoint keyed_decode (nt nd : bool) (key : str -> list (str * str) -> str) (d : doc) (t : ty) {struct t}
   : outcome val :=
   match t with
   | TBasic k name => decode_basic nd k name d
-  | TTextU _ true =>                         (* the palette's pointer-receiver TextUnmarshaler stores the text *)
+  | TTextU id true =>
+      if str_eqb id time_name then decode_time nt d
+      else                                   (* the palette's pointer-receiver TextUnmarshaler stores the text *)
       match d with DStr s => Ok (VText s) | _ => Err 40 end
-  | TPtr t' => omap VPtr (keyed_decode nd key d t')
+  | TPtr t' => omap VPtr (keyed_decode nt nd key d t')
   | TSlice e n =>
       if netip e n then                      (* net.IP: a TextUnmarshaler whose kind is slice *)
         match d with DStr s => parse_ip s | _ => Err 40 end
@@ -121,7 +139,7 @@ Fixpoint keyed_decode (nd : bool) (key : str -> list (str * str) -> str) (d : do
           omap VList ((fix go (l : list doc) : outcome (list val) :=
                          match l with
                          | [] => Ok []
-                         | x :: r => v <- keyed_decode nd key x e ;; vs <- go r ;; Ok (v :: vs)
+                         | x :: r => v <- keyed_decode nt nd key x e ;; vs <- go r ;; Ok (v :: vs)
                          end) l)
       | _ => Err 40
       end
@@ -131,34 +149,34 @@ Fixpoint keyed_decode (nd : bool) (key : str -> list (str * str) -> str) (d : do
           omap VMap ((fix go (l : list (str * doc)) : outcome (list (val * val)) :=
                         match l with
                         | [] => Ok []
-                        | (k, x) :: r => v <- keyed_decode nd key x e ;; m <- go r ;; Ok (kv_ins k v m)
+                        | (k, x) :: r => v <- keyed_decode nt nd key x e ;; m <- go r ;; Ok (kv_ins k v m)
                         end) (rev kvs))
       | _ => Err 40
       end
   | TStruct fs _ =>
       match d with
-      | DMap kvs => omap VStruct (keyed_fields nd key kvs fs)
+      | DMap kvs => omap VStruct (keyed_fields nt nd key kvs fs)
       | _ => Err 43
       end
   | _ => Err e_unmodelled
   end
-with keyed_fields (nd : bool) (key : str -> list (str * str) -> str) (kvs : list (str * doc)) (fs : fields)
+with keyed_fields (nt nd : bool) (key : str -> list (str * str) -> str) (kvs : list (str * doc)) (fs : fields)
     {struct fs} : outcome (list val) :=
   match fs with
   | FNil => Ok []
   | FCons n tags _ t r =>
       v <- match doc_lookup (key n tags) kvs with
-           | Some d => keyed_decode nd key d t
+           | Some d => keyed_decode nt nd key d t
            | None => Ok (zero t)                     (* absent key: the field is left as it is *)
            end ;;
-      vs <- keyed_fields nd key kvs r ;;
+      vs <- keyed_fields nt nd key kvs r ;;
       Ok (v :: vs)
   end.
 
-Definition generic_decode (nd : bool) (keytag : str) : doc -> ty -> outcome val :=
-  keyed_decode nd (field_key keytag).
-Definition generic_fields (nd : bool) (keytag : str) : list (str * doc) -> fields -> outcome (list val) :=
-  keyed_fields nd (field_key keytag).
+Definition generic_decode (nt nd : bool) (keytag : str) : doc -> ty -> outcome val :=
+  keyed_decode nt nd (field_key keytag).
+Definition generic_fields (nt nd : bool) (keytag : str) : list (str * doc) -> fields -> outcome (list val) :=
+  keyed_fields nt nd (field_key keytag).
 
 (* ---- TagCopyingMangler (recursively through struct, *struct, []struct, [N]struct) ---- *)
 Definition copy_tag (src new : str) (tags : list (str * str)) : list (str * str) :=
@@ -259,6 +277,9 @@ Definition fmt_tag (f : format) : str :=
 Definition lib_native_dur (f : format) : bool :=
   match f with FYaml | FToml => true | FJson | FCue => false end.
 
+Definition lib_native_time (f : format) : bool :=
+  match f with FToml => true | _ => false end.
+
 Definition translated (f : format) (pfs : fields) : fields :=
   match f with
   | FJson | FCue => tagcopy_fields dials_tag json_tag (subst_fields pfs)
@@ -269,7 +290,7 @@ Definition translated (f : format) (pfs : fields) : fields :=
 (* Decoder.Decode on the pointerified config type pfs *)
 Definition decode (f : format) (d : doc) (pfs : fields) : outcome (list val) :=
   match d with
-  | DMap kvs => generic_fields (lib_native_dur f) (fmt_tag f) kvs (translated f pfs)
+  | DMap kvs => generic_fields (lib_native_time f) (lib_native_dur f) (fmt_tag f) kvs (translated f pfs)
   | _ => Err 43
   end.
 
